@@ -17,6 +17,7 @@ import (
 	"os/exec"
 	"path/filepath"
 	"runtime"
+	"slices"
 	"sort"
 	"strings"
 	"sync"
@@ -158,6 +159,11 @@ type Action struct {
 	Imports []string `json:"imports,omitempty"` // import paths referenced through snippet.PkgExpose (rendered as `var _ <name>.X`)
 	Ret     string   `json:"ret,omitempty"`     // "", skip, ignore, wrapskip, wrapignore, error, panic, goexit, kill, exit
 	Defers  []Action `json:"defers,omitempty"`  // callbacks registered with Context.Defer (their Ret: "", error, panic, kill)
+	// Parts: texts handed to the writer by the route Route: 0 one Block of the concatenation, 1 one Render
+	// call per part, 2 ONE RenderT call with every part as a template argument, 3 ONE Render call of a
+	// Snippets list, 4 ONE Render call of Sprintf("%v%v...", parts as snippets)
+	Parts []string `json:"parts,omitempty"`
+	Route int      `json:"route,omitempty"`
 	// Recovered: text rendered through a template that ends in an unbound name: the render panics after it
 	// yielded this text, and the generator recovers from the panic and carries on (a legal thing to do)
 	Recovered string `json:"render_that_panics_and_is_recovered,omitempty"`
@@ -237,6 +243,36 @@ func (in *inst) perform(c gengo.Context, gen string, a Action, typ string) error
 	}
 	if a.Render != "" {
 		c.Render(snippet.Block(subst(a.Render, typ, gen, pkgName)))
+	}
+	if len(a.Parts) > 0 {
+		var blocks []snippet.Snippet
+		for _, p := range a.Parts {
+			blocks = append(blocks, snippet.Block(subst(p, typ, gen, pkgName)))
+		}
+		switch a.Route {
+		case 1:
+			for _, b := range blocks {
+				c.Render(b)
+			}
+		case 2:
+			format := ""
+			var args []snippet.TArg
+			for i, b := range blocks {
+				format += fmt.Sprintf("@part%d", i)
+				args = append(args, snippet.Arg(fmt.Sprintf("part%d", i), b))
+			}
+			c.RenderT(format, args...)
+		case 3:
+			c.Render(snippet.Snippets(slices.Values(blocks)))
+		case 4:
+			var args []any
+			for _, b := range blocks {
+				args = append(args, b)
+			}
+			c.Render(snippet.Sprintf(strings.Repeat("%v", len(blocks)), args...))
+		default:
+			c.Render(snippet.Block(subst(strings.Join(a.Parts, ""), typ, gen, pkgName)))
+		}
 	}
 	if a.Recovered != "" {
 		func() {
@@ -349,6 +385,21 @@ func (in *inst) alias(gen string, c gengo.Context, al *types.Alias) error {
 		return nil
 	}
 	return in.perform(c, gen, *s.Alias, typ)
+}
+
+// Twins holds types that share package name and type name across two packages.
+type Twins struct {
+	P clamodel.Item
+	Q clbmodel.Item
+	R []clamodel.Item
+	S []clbmodel.Item
+	T *clamodel.Item
+	U *clbmodel.Item
+}
+
+// TwinsValue has as many clamodel.Item as clbmodel.Item references.
+func TwinsValue() Twins {
+	return Twins{P: clamodel.Item{N: 1}, Q: clbmodel.Item{N: 2}, R: []clamodel.Item{{N: 3}}, S: []clbmodel.Item{{N: 4}}, T: &clamodel.Item{N: 5}, U: &clbmodel.Item{N: 6}}
 }
 
 // Holder is rendered by the vm generator.
